@@ -31,9 +31,13 @@ func VerifHarness_C26_subname() {
 				return true
 			}
 		}
-		return verifc26.CleanDepthEscapes(name) || verifc26.CleanDepth(name) == 0
+		return verifc26.CleanDepthEscapes(name)
 	})
 	verifrt.Assert(!bad, "c26-subname-stays-below-modules")
+	// every component is ".": .git/modules/<name> is .git/modules itself
+	root := verifrt.MergeBool(func() bool { return verifc26.CleanDepth(name) == 0 })
+	verifrt.Known("C26-subname-resolves-to-modules-root", root)
+	verifrt.Assert(!root, "c26-subname-is-not-modules-root")
 }
 
 // ".." followed by spaces / periods and an optional ":stream": what Win32
